@@ -8,7 +8,8 @@ EXTENDS Naturals, Sequences, FiniteSets, TLC, Json
 
 Ops ==
   {[op |-> "header", n |-> n, vs |-> vs] : n \in {"x-a", "X-B", "content-type"}, vs \in {<<"v1">>, <<"v2">>}}
-  \cup {[op |-> "header", n |-> "x-a", vs |-> <<"v1", "v2">>]}
+  \cup {[op |-> "header", n |-> "x-a", vs |-> vs] :
+          vs \in {<<"v1", "v2">>, <<"v1", "v1">>, <<"v1", "v1", "v2">>, <<"v2", "v1", "v2">>}}    \* multi-valued, with repeats
   \cup {[op |-> "ctype", m |-> "m_custom"]}
   \cup {[op |-> "body", k |-> k] : k \in {"string", "bytes", "json", "form", "empty"}}
   \cup {[op |-> "query", q |-> q] : q \in {"q1", "q2"}}
